@@ -76,6 +76,13 @@ def gen_plan(seed, tier):
     plan['maxiter'] = rng.choice([None, None, 5, 30, 100]); plan['maxfun'] = rng.choice([None, None, 20, 200])
     plan['via'] = rng.choice(['class', 'wrapper'])
     if kind == 'nm': plan['adaptive'] = rng.random() < 0.3
+    if kind == 'nm' and plan['via'] == 'class' and plan['maxfun'] is None and rng.random() < 0.3:
+        # the run is logged to a file (LoggingMonitor as step monitor) and the file fails once or twice (EIO / ENOSPC on a write);
+        # the caller handles the error and steps on.  The objective never fails: the iteration is still the reference's, a failed
+        # log write costs at most its own record
+        rf = sub_rng(seed, 'fault')
+        plan['logfaults'] = [{'at': 'fs.write#%d' % a, 'kind': rf.choice(['eio', 'enospc'])}
+                             for a in sorted(set(rf.randint(2, 40) for _ in range(rf.choice([1, 1, 2]))))]
     if rng.random() < 0.12:
         # a start at (or within xtol of) the origin whose cost is (within ftol of) zero: before the simplex exists the
         # placeholder vertices/energies must not let the stop rule fire at generation 0
@@ -319,13 +326,31 @@ def run_nm(plan, run, violate, stats):
     s.SetEvaluationLimits(plan['maxiter'], plan['maxfun'])
     s.SetTermination(CRT(plan['xtol'], plan['ftol']))
     kw = {'adaptive': True} if plan.get('adaptive') else {}
+    lost = 0      # step-monitor records lost to a failed log write (the iteration itself was made)
+    if plan.get('logfaults'):
+        import mystic.monitors as mm
+        run.fs = simfs.SimFS(run); run.fs.plant()
+        s.SetGenerationMonitor(mm.LoggingMonitor(1, filename=run.fs.path('nm-step.log')))
+        base = run.counts['fs.write']        # (the header lines are written by the constructor; the faults land on record writes)
+        for f_ in plan['logfaults']:
+            seam, n_at = f_['at'].split('#'); run.faults[(seam, base + int(n_at) - 1)] = f_
+        tags['log_fault'] = True
     first = True
     k = 0
     while True:
-        msg = s.Step(cost if first else None, **kw); first = False
+        g_before = len(s._stepmon)
+        try:
+            msg = s.Step(cost if first else None, **kw); first = False
+        except env.SimFault:
+            run.fired['log_write_error'] = run.fired.get('log_write_error', 0) + 1
+            if s._cost[1] is not None: first = False
+            if len(s._stepmon) == g_before: lost += 1
+            k += 1
+            if k > 2000: break
+            continue
         k += 1
         stats['iterations'] += 1
-        g = s.generations
+        g = s.generations + lost
         if g == 1:
             want = sorted(tuple((1 + 0.05) * v if (j == k_ and v != 0) else (0.00025 if j == k_ else v) for j, v in enumerate(x0))
                           for k_ in range(dim))
@@ -346,13 +371,13 @@ def run_nm(plan, run, violate, stats):
         if msg or k > 2000: break
     if ref.status == 1:
         mf = opts['maxfev']
-        if not (mf <= s.evaluations <= mf + dim + 1 and ref.nit <= s.generations <= ref.nit + 1 and s.evaluations == len(run.evals)):
+        if not (mf <= s.evaluations <= mf + dim + 1 and ref.nit <= s.generations + lost <= ref.nit + 1 and s.evaluations == len(run.evals)):
             violate('wrapper_counts_differ', 'solver at the evaluation limit %d: iterations %d, evaluations %d (real %d); scipy %d, %d'
                     % (mf, s.generations, s.evaluations, len(run.evals), ref.nit, ref.nfev), **tags)
         return
-    if s.generations != ref.nit or s.evaluations != ref.nfev or len(run.evals) != ref.nfev:
-        violate('wrapper_counts_differ', 'solver: iterations %d, evaluations %d (real %d); scipy Nelder-Mead: %d, %d'
-                % (s.generations, s.evaluations, len(run.evals), ref.nit, ref.nfev), **tags); return
+    if s.generations + lost != ref.nit or s.evaluations != ref.nfev or len(run.evals) != ref.nfev:
+        violate('wrapper_counts_differ', 'solver: iterations %d (+%d whose record was lost to a failed log write), evaluations %d (real %d); '
+                'scipy Nelder-Mead: %d, %d' % (s.generations, lost, s.evaluations, len(run.evals), ref.nit, ref.nfev), **tags); return
     if not close(s.bestSolution, ref.x) or not close(float(s.bestEnergy), float(ref.fun)):
         violate('nm_diverges_from_reference@final', 'solver -> %r/%r, scipy -> %r/%r' % (canon(s.bestSolution), s.bestEnergy,
                 canon(ref.x), ref.fun), **tags)
@@ -472,6 +497,9 @@ def run_plan(plan):
         with engine.patched_world(run):
             {'de': run_de, 'nm': run_nm, 'powell': run_powell}[plan['kind']](plan, run, violate, stats)
     finally:
+        if getattr(run, 'fs', None) is not None:
+            try: run.fs.cleanup()
+            except Exception: pass
         env.end()
     tr = repr(canon(run.trace)) + repr(len(run.evals)) + repr(sorted(stats.items())) + repr(canon([e.x for e in run.evals[-5:]]))
     return {'violations': V, 'digest': hashlib.sha1(tr.encode()).hexdigest(), 'probes': run.probes, 'fired': run.fired,
